@@ -15,7 +15,8 @@ structure Item where
 
 def errName : Err → String
   | .typeError => "TypeError" | .indexError => "IndexError" | .valueError => "ValueError"
-  | .zeroDivision => "ZeroDivisionError" | .keyError => "KeyError" | .stepsExhausted => "StepsExhausted"
+  | .zeroDivision => "ZeroDivisionError" | .keyError => "KeyError" | .attributeError => "AttributeError"
+  | .stepsExhausted => "StepsExhausted"
 
 def errOfName : String → Err
   | "TypeError" => .typeError | "IndexError" => .indexError | "ValueError" => .valueError
@@ -50,10 +51,10 @@ def parseItem (j : Json) : Except String Item := do
     | _ => throw "key/token pair expected")
   pure { id, logged, hasCtx, ctx, nact, record }
 
-def parseSeed (j : Json) : Except String Nat := do
+def parseSeed (j : Json) : Except String Seed := do
   match (j.getObjVal? "int") with
-  | .ok v => pure (C05.normInt (← int v))
-  | .error _ => pure (C05.normBytes (← natList (← field j "bytes")))
+  | .ok v => pure (.int (← int v))
+  | .error _ => pure (.bytes (← natList (← field j "bytes")))
 
 def parseRange (j : Json) : Except String Range := do
   match j with
@@ -78,17 +79,77 @@ def batchedJson : Batched Nat → Json
   | .plain r => obj [("plain", recJson r)]
   | .batch cols => obj [("batch", ofList (fun (p : String × List Nat) => Json.arr #[Json.str p.1, ofList ofNat p.2]) cols)]
 
+/-- the loop's arithmetic on IEEE doubles (the C library's `log`/`pow`, as CPython uses them) -/
+def floatOps : FloatOps Float where
+  ofUnif k := Float.ofNat k / 1073741824.0
+  one := 1.0
+  inv n := 1.0 / Float.ofNat n
+  mul a b := a * b
+  pw r x := Float.pow r x
+  oneMinus w := 1.0 - w
+  lg r := Float.log r
+  pos x := decide (x > 0.0)
+  isZero x := x == 0.0
+  quotFloor a b := (Float.floor (a / b)).toUInt64.toNat
+  slot r n := (r * Float.ofNat n).toUInt64.toNat
+
+def stepJson : Step → Json
+  | .skip S slot => Json.arr #[ofNat S, ofNat slot]
+  | .raise e => obj [("raise", Json.str (errName e))]
+
+/-- parameters of a single-filter request -> the modelled filter as a function on items -/
+def parseInner (req : Json) : Except String (List Item → Except Err (List Item)) := do
+  let op ← str (← field req "op")
+  match op with
+  | "pshuffle" =>
+    let s ← parseSeed (← field req "seed")
+    pure (fun items => .ok (shuffleSeeded s items))
+  | "eshuffle" =>
+    let s ← parseSeed (← field req "seed")
+    let ls ← parseSeed (← field req "lseed")
+    pure (fun items => .ok (eShuffleSeeded (·.logged) s ls items))
+  | "take" =>
+    let c ← opt nat (fieldD req "count" Json.null)
+    let strict ← bool (← field req "strict")
+    pure (fun items => .ok (take c strict items))
+  | "slice" =>
+    let a ← opt nat (fieldD req "start" Json.null)
+    let b ← opt nat (fieldD req "stop" Json.null)
+    let st ← nat (← field req "step")
+    pure (fun items => .ok (slice a b st items))
+  | "reservoir" =>
+    let c ← opt nat (fieldD req "count" Json.null)
+    let strict ← bool (← field req "strict")
+    let s ← parseSeed (← field req "seed")
+    pure (fun items => reservoirF floatOps c strict s.norm (items.length + 12) items)
+  | "sort" =>
+    let keys ← (← arr (← field req "keys")).mapM parseVal
+    pure (fun items => sortF (·.hasCtx) (·.ctx) keys items)
+  | "where" =>
+    let ni ← parseRange (← field req "nint")
+    let na ← parseRange (← field req "nact")
+    let nf ← parseRange (← field req "nfet")
+    pure (fun items => .ok (whereF (fun (i : Item) => ctxLen i.ctx) (·.nact) ni na nf items))
+  | "riffle" =>
+    let sp ← nat (← field req "spacing")
+    let s ← parseSeed (← field req "seed")
+    pure (fun items => .ok (riffleSeeded sp s items))
+  | "identity" => pure (fun items => .ok (identityF items))
+  | _ => throw s!"unknown inner op {op}"
+
+def dummyItem : Item := { id := 0, logged := false, hasCtx := false, ctx := .none, nact := 0, record := [] }
+
 def handle (req : Json) : Except String Json := do
   let op ← str (← field req "op")
   let items ← (← arr (← field req "items")).mapM parseItem
   match op with
   | "pshuffle" =>
     let s ← parseSeed (← field req "seed")
-    pure (obj [("out", ids (pShuffle s items))])
+    pure (obj [("out", ids (shuffleSeeded s items))])
   | "eshuffle" =>
     let s ← parseSeed (← field req "seed")
     let ls ← parseSeed (← field req "lseed")
-    pure (obj [("out", ids (eShuffle (·.logged) s ls items))])
+    pure (obj [("out", ids (eShuffleSeeded (·.logged) s ls items))])
   | "take" =>
     let c ← opt nat (fieldD req "count" Json.null)
     let strict ← bool (← field req "strict")
@@ -101,13 +162,26 @@ def handle (req : Json) : Except String Json := do
   | "reservoir" =>
     let c ← opt nat (fieldD req "count" Json.null)
     let strict ← bool (← field req "strict")
-    let s ← parseSeed (← field req "seed")
-    let steps ← (← arr (← field req "steps")).mapM parseStep
-    let r := reservoir c strict s steps items
+    let sd ← parseSeed (← field req "seed")
+    let s := sd.norm
+    -- the steps are the model's own (float formulas on the LCG uniforms after the initial shuffle);
+    -- `steps` in the request (optional) replaces them: the harness's recomputation, for cross-checking
+    let st := reservoirState c s items
+    let own := match c with
+      | some n => floatSteps floatOps n floatOps.one (triples st (items.length + 12))
+      | none => []
+    let r := reservoirF floatOps c strict s (items.length + 12) items
     let base := match r with
       | .ok l => [("out", ids l)]
       | .error e => [("err", Json.str (errName e))]
-    pure (obj (base ++ [("state", ofNat (reservoirState c s items)), ("seedstate", ofNat s)]))
+    let given ← match req.getObjVal? "steps" with
+      | .ok v => do
+        let steps ← (← arr v).mapM parseStep
+        pure (match reservoir c strict s steps items with
+          | .ok l => [("out_given", ids l)]
+          | .error e => [("err_given", Json.str (errName e))])
+      | .error _ => pure []
+    pure (obj (base ++ given ++ [("state", ofNat st), ("seedstate", ofNat s), ("steps", ofList stepJson own)]))
   | "sort" =>
     let keys ← (← arr (← field req "keys")).mapM parseVal
     pure (outIds (sortF (·.hasCtx) (·.ctx) keys items))
@@ -121,7 +195,43 @@ def handle (req : Json) : Except String Json := do
   | "riffle" =>
     let sp ← nat (← field req "spacing")
     let s ← parseSeed (← field req "seed")
-    pure (obj [("out", ids (riffle sp s items))])
+    pure (obj [("out", ids (riffleSeeded sp s items))])
+  | "batchsafe" =>
+    -- BatchSafe(inner filter) on the items as they are (size 0) or batched by Batch(size)
+    let size ← nat (← field req "size")
+    let inner ← parseInner (← field req "inner")
+    let itemOf := fun (r : Rec Nat) => match r with
+      | [] => dummyItem
+      | (_, t) :: _ => (items.find? (fun i => i.id == t / 64)).getD dummyItem
+    let F : List (Rec Nat) → Except Err (List (Rec Nat)) := fun recs =>
+      match inner (recs.map itemOf) with
+      | .error e => .error e
+      | .ok l => .ok (l.map (·.record))
+    let input : Except Err (List (Batched Nat)) :=
+      if size = 0 then .ok (items.map (fun i => Batched.plain i.record)) else batchF size (items.map (·.record))
+    match input with
+    | .error e => pure (obj [("err", Json.str (errName e))])
+    | .ok xs =>
+      match batchSafe (liftF F) xs with
+      | .error e => pure (obj [("err", Json.str (errName e))])
+      | .ok bs => pure (obj [("batches", ofList batchedJson bs), ("unbatched", ofList recJson (unbatchF bs))])
+  | "collection" =>
+    -- Environments(env_0, env_1, …).<shortcut>() read in a given order; a fresh filter object per environment
+    let envs ← (← arr (← field req "envs")).mapM (fun e => do (← arr e).mapM parseItem)
+    let order ← (← arr (← field req "order")).mapM (fun p => do
+      match p with
+      | .arr #[k, c] => pure (← nat k, ← opt nat c)
+      | _ => throw "read [env, consumed] expected")
+    let envOf := fun k => envs.getD k []
+    let innerReq ← field req "inner"
+    let name ← str (← field innerReq "op")
+    if name == "cache" then
+      let outs := runColl (cacheFilt (← nat (fieldD innerReq "nslice" (ofNat 25)))) envOf (fun _ => none) order
+      pure (obj [("reads", ofList (fun (p : Nat × List Item) => Json.arr #[ofNat p.1, obj [("out", ids p.2)]]) outs)])
+    else
+      let inner ← parseInner innerReq
+      let outs := runColl (statelessFilt inner) envOf (fun _ => ()) order
+      pure (obj [("reads", ofList (fun (p : Nat × Except Err (List Item)) => Json.arr #[ofNat p.1, outIds p.2]) outs)])
   | "batch" =>
     let size ← nat (← field req "size")
     match batchF size (items.map (·.record)) with
